@@ -282,7 +282,10 @@ def main() -> int:
     import textwrap
 
     ex = [textwrap.dedent(t) for o, t in corpus.repo_examples(2) if len(t) < 2500]
-    texts = COMPETING + r.sample(ex, 500 if thorough else 150)
+    from . import c05, c09
+
+    # (the hand-written texts of C05 / C09 too: several numbered generated constants, guessed imports in a doc-stringed module, competing rewrites)
+    texts = COMPETING + list(c05.FIXED_TEXTS) + list(c09.ANTAGONISTS[:6]) + r.sample(ex, 500 if thorough else 150)
     requests = []
     for i, t in enumerate(texts):
         requests.append({"kind": "format", "text": t, "options": [{}, {"safe": True}, {"keep_imports": True}, {"max_line_length": 60}][i % 4]})
